@@ -11,13 +11,28 @@ import numpy as np
 from harness.common import frac, err_kind, deep_compare
 
 PID = "C34"
-DISABLED = True
 THEOREMS = [
+    "PorepyVerif.C34.separated_of_margins",
+    "PorepyVerif.C34.separated_of_check",
+    "PorepyVerif.C34.uniq_first_member",
+    "PorepyVerif.C34.uniq_order_first_occurrence",
+    "PorepyVerif.C34.uniq_points",
+    "PorepyVerif.C34.uniq_maps_consistent",
+    "PorepyVerif.C34.uniq_one_per_cluster",
+    "PorepyVerif.C34.uniq_old2new_new2old",
+    "PorepyVerif.C34.uniq_old2new_eq_iff",
+    "PorepyVerif.C34.uniquifyPoints_edges",
+    "PorepyVerif.C34.ismember_eq_brute",
+    "PorepyVerif.C34.sortCol_eq_iff_perm",
+    "PorepyVerif.C34.ismember_spec",
+    "PorepyVerif.C34.intersect_spec",
+    "PorepyVerif.C34.intersect_unique_match",
+    "PorepyVerif.C34.anchor_rule_splits_cluster",
 ]
 LEAN_MODULES = ["PorepyVerif.C34.Props"]
 AUDIT = "PorepyVerif/C34/Audit.lean"
 DRIVER = "PorepyVerif/C34/Driver.lean"
-N = {"quick": 700, "thorough": 16000}
+N = {"quick": 700, "thorough": 6000}
 KEY_F4 = "uniquify-norm-anchor-splits-cluster"
 RULE = ("four case kinds. uniquify (45%) / uniquify_points (15%): 0-9 clusters of 1-4 points in dimension 1-3, cluster diameter < 0.3*tol, "
         "points of different clusters > 3*tol apart (checked in exact arithmetic, rejected otherwise), cluster centres on spheres whose "
